@@ -994,7 +994,7 @@ def emit_fn_cases(contract, info, impl_header):
         c2.directives = contract.directives
         c2.case_of = contract.key
         text = emit_fn(c2, True, info, key_override=contract.key + '#' + label, skip_sigcheck_name=contract.name)
-        out.append('pub mod case_%s { use super::*;\n%s {\n%s}\n}\n' % (re.sub(r'[^A-Za-z0-9_]', '_', label), impl_header, text))
+        out.append('pub mod case_%s { use super::*;\nbroadcast use {lenax::axiom_vec_len_bound_b, lenax::axiom_slice_len_bound_b};\n%s {\n%s}\n}\n' % (re.sub(r'[^A-Za-z0-9_]', '_', label), impl_header, text))
     return '\n'.join(out)
 
 
